@@ -7,6 +7,18 @@ from .corpus import Corpus, check_runs
 from .fixedchk import cleanup_scratch
 
 
+# types whose declaration depends on a const parameter, each instantiated several times in one process
+CONST_GENERIC_SRC = """
+#[derive(TS)] pub struct CgMatrix<T, const N: usize> { pub rows: [T; N], pub label: String }
+#[derive(TS)] pub struct CgBuf<const N: usize, const M: usize = 2> { pub a: [u8; N], pub b: [Option<i16>; M] }
+#[derive(TS)] pub enum CgChoice<const N: usize> { Flags([bool; N]), Named { names: [String; N] }, Nothing }
+#[derive(TS)] pub struct CgHolder { pub two: CgMatrix<i32, 2>, pub three: CgMatrix<i32, 3>, pub buf: CgBuf<1>, #[ts(inline)] pub choice: CgChoice<2> }
+"""
+CONST_GENERIC_ENTRIES = [("Cg:matrix2", "CgMatrix<i32, 2>"), ("Cg:matrix3", "CgMatrix<i32, 3>"), ("Cg:matrix0", "CgMatrix<String, 0>"),
+                         ("Cg:buf1", "CgBuf<1>"), ("Cg:buf34", "CgBuf<3, 4>"), ("Cg:choice1", "CgChoice<1>"), ("Cg:choice2", "CgChoice<2>"),
+                         ("Cg:holder", "CgHolder")]
+
+
 def run(pid, tier, seed):
     chk = C.Check(pid, tier, seed)
     k = 3 if tier == "quick" else 6
@@ -14,9 +26,11 @@ def run(pid, tier, seed):
     per = 70 if tier == "quick" else 200
     chk.rule = (f"{nsrc} generated sources (graph profile biased to many dependencies: structs referring to 5..9 earlier items, shared files, "
                 f"cycles) each emitted as {k} identically-sourced packages, so every package is expanded by its own rustc/proc-macro process "
-                "(fresh hash seeds); every binary dumps decl/name/inline/decl_concrete/export_to_string/dependencies-as-set of every type and "
+                "(fresh hash seeds); the sources include types whose declaration depends on a const parameter, instantiated several times; every "
+                "binary dumps decl/name/inline/decl_concrete/export_to_string/dependencies-as-set of every type, each package asking in its own "
+                "shuffled order (what is asked first must not matter), and "
                 "exports all types through export_all() with 1, 4 and 16 threads in seeded shuffled orders, twice. Oracle: all dumps and all "
-                "export trees are byte-identical across packages, repetitions, thread counts and orders. In-process: every item is expanded "
+                "exported files (compared path by path) are byte-identical across packages, repetitions, thread counts and orders. In-process: every item is expanded "
                 "20x and the number of distinct raw token orders is recorded (evidence that hash order really varies). distinct_nontrivial "
                 "= types with >= 3 dependencies whose dumps were compared across packages")
     chk.assumptions = ["separate packages = separate rustc invocations = fresh RandomState for the macro's HashSets"]
@@ -32,7 +46,7 @@ def run(pid, tier, seed):
                 g.make_entries(per_generic=2)
                 gens.append(g)
             sources.append(gens[-1])
-        corpus = Corpus("det", gens, entry_ctor="ts")
+        corpus = Corpus("det", gens, entry_ctor="ts", extra_src=CONST_GENERIC_SRC, extra_entries=CONST_GENERIC_ENTRIES)
         corpus.build()
         for sidx in range(nsrc):
             sets = [sorted(corpus.dropped.get(f"det_{sidx * k + j}", {})) for j in range(k)]
@@ -82,10 +96,23 @@ def run(pid, tier, seed):
                     digests.add(t["digest"])
                     if t["n_errors"]:
                         chk.violation("C13|export-error", f"export failed with {t['threads']} threads: {t['errors'][:2]}", t, tags=["export-error"])
-                    if not t["same_as_first_in_process"]:
-                        chk.violation(f"C13|tree-differs-in-process|threads={t['threads']}", f"export tree with {t['threads']} threads (rep {t['rep']}) differs from "
-                                      f"the first run in the same process: {str(t['differing'])[:500]}", t, tags=["tree-differs"])
-            if len(digests) > 1:
+            # file by file over every run of every package of this source: one content per path
+            per_path = {}
+            n_runs = 0
+            for pi, ts in enumerate(trees):
+                for t in ts:
+                    n_runs += 1
+                    for path, dg in t["file_digests"].items():
+                        per_path.setdefault(path, {}).setdefault(dg, []).append((pi, t["threads"], t["rep"]))
+            for path, by in sorted(per_path.items()):
+                present = sum(len(v) for v in by.values())
+                if len(by) > 1 or present != n_runs:
+                    example = next((x for ts in trees for t in ts for x in t["differing"] if x["path"] == path), None)
+                    chk.violation(f"C13|file-differs|{path}", f"source {sidx}: {path} has {len(by)} different contents over {n_runs} export runs "
+                                  f"(packages x thread counts x orders){'' if present == n_runs else f', and exists in only {present} of them'}"
+                                  + (f": {str(example)[:400]}" if example else ""),
+                                  {"path": path, "contents": {k: v[:6] for k, v in by.items()}, "example": example}, tags=["tree-differs"])
+            if len(digests) > 1 and not any(len(by) > 1 or sum(len(v) for v in by.values()) != n_runs for by in per_path.values()):
                 chk.violation("C13|tree-differs-across-packages", f"source {sidx}: export trees differ between compilations/runs: {sorted(digests)}",
                               {"digests": sorted(digests)}, tags=["tree-differs"])
             chk.hist("runs", "export_runs_compared", sum(len(t) for t in trees))
